@@ -186,6 +186,15 @@ Fixpoint outs (s : st) (ops : list op) : list out :=
   | o :: tl => fst (step s o) :: outs (snd (step s o)) tl
   end.
 
+(** system/store/base.go processMessage: the module's reply to EventStoreCommit is
+    ErrHashNotFound whenever the hash Commit returned is nil — also when Commit
+    succeeded on the nil state hash (finding C04-2).  Every other reply is passed on. *)
+Definition via_queue (o : op) (r : out) : out :=
+  match o, r with
+  | OCommit _, RRoot XNil => RErrNotFound
+  | _, _ => r
+  end.
+
 (** A root computed on an unrelated database (the harness uses it as a hash
     the store has never seen). *)
 Definition foreign_root (kvs : list (bytes * bytes)) : xroot :=
